@@ -140,6 +140,9 @@ def run(tier):
         if kind == "str" and level in (None, 2):
             for cs in ("emptykey", "oddkey", "method"):
                 fams.append(("errval",) + gen_prot.errval_program(kind, catcher, level, via, cs) + (None,))
+        if kind in ("str", "table", "nil") and level is None and catcher in ("pcall", "xpcall"):
+            for cs in ("callable", "uncallable"):      # the protected call is handed an object with __call / a number
+                fams.append(("callobj",) + gen_prot.errval_program(kind, catcher, level, via, cs) + (None,))
     # errors escaping coroutine.wrap functions, caught in the resumer (main thread or a coroutine)
     for rk, res, cat in itertools.product(["error", "errtab", "fault", "gerr", "gpanic", "after-yield"], ["main", "coroutine"], ["pcall", "xpcall"]):
         fams.append(("wraperr",) + gen_prot.wraperr_program(rk, res, cat) + (None,))
